@@ -102,9 +102,8 @@ func (r *Run) EmitGuardRef(name string, scope Scope) error {
 		}
 		ri.Functions[FuncKey(fd.Obj)] = inv
 	}
-	bs, _ := json.MarshalIndent(ri, "", " ")
 	os.MkdirAll(filepath.Dir(refPath(name)), 0o755)
-	return os.WriteFile(refPath(name), bs, 0o644)
+	return writeJSON(refPath(name), ri)
 }
 
 func invIncludes(now, ref Inventory) (missing []string) {
@@ -346,4 +345,16 @@ func pureExpr(e ast.Expr) bool {
 		return pureExpr(sel.X)
 	}
 	return false
+}
+
+func writeJSON(path string, v any) error {
+	f, err := os.Create(path)
+	if err != nil {
+		return err
+	}
+	defer f.Close()
+	enc := json.NewEncoder(f)
+	enc.SetEscapeHTML(false)
+	enc.SetIndent("", " ")
+	return enc.Encode(v)
 }
